@@ -141,9 +141,9 @@ def gen(tier, rng, scale):
         files = []
         for _ in range(nfiles):
             if rng.chance(1, 2):
-                files.append(["fx", rng.choice(ELF_FIXTURES), rng.choice(["", "", "renamed.so", "lib with space.so", "moved:libmoved%d.so" % len(files), "lib\u00e9\u4e2d.so", 'lib"q".so', "lib\\b.so", "moved:lib'x%d.so" % len(files)])])
+                files.append(["fx", rng.choice(ELF_FIXTURES), rng.choice(["", "", "renamed.so", "lib with space.so", "moved:libmoved%d.so" % len(files), "lib\u00e9\u4e2d.so", 'lib"q".so', "lib\\b.so", "moved:lib'x%d.so" % len(files), "link:libver%d.so" % len(files)])])
             else:
-                files.append(["gen", rng.next(), rng.choice(["", "libgen.so.1", "a.out", "moved:genmoved%d.so" % len(files)])])
+                files.append(["gen", rng.next(), rng.choice(["", "libgen.so.1", "a.out", "moved:genmoved%d.so" % len(files), "link:libgenver%d.so" % len(files)])])
         cases.append({"kind": "e2e", "gz": rng.chance(1, 2), "seed": rng.next(), "items": files})
     return cases
 
@@ -194,6 +194,15 @@ def run_e2e(samply, hsym, case, d, port_base):
             shutil.copy(p, q)
             p = q
             mapped_as = "/no/such/dir%d/%s" % (i, rename[6:])
+        elif rename.startswith("link:"):
+            # the mapped path is a symbolic link to the binary (libfoo.so.1 -> libfoo.so.1.0, the usual layout of versioned shared objects)
+            sub = os.path.join(d, "l%d" % i)
+            os.makedirs(sub, exist_ok=True)
+            q = os.path.join(sub, rename[5:] + ".1.0")
+            shutil.copy(p, q)
+            mapped_as = os.path.join(sub, rename[5:])
+            os.symlink(os.path.basename(q), mapped_as)
+            p = q
         elif rename:
             sub = os.path.join(d, "r%d" % i)
             os.makedirs(sub, exist_ok=True)
